@@ -1576,12 +1576,16 @@ func unexpectedEmpty(parser *Parser, beginLoc int, openKind, closeKind lexer.Tok
 // to the next lex token after the closing token.
 // if zinteger is true, len(nodes) > 0
 func reverse(parser *Parser, openKind lexer.TokenKind, parseFn parseFn, closeKind lexer.TokenKind, zinteger bool) ([]interface{}, error) {
-	token, err := expect(parser, openKind)
-	if err != nil {
+	if _, err := expect(parser, openKind); err != nil {
 		return nil, err
 	}
 	var nodes []interface{}
 	for {
+		if zinteger && len(nodes) == 0 && peek(parser, closeKind) {
+			// The list must not be empty: the closing token is the first token
+			// that cannot continue the document, so the error points at it.
+			return nodes, unexpectedEmpty(parser, parser.Token.Start, openKind, closeKind)
+		}
 		if skp, err := skip(parser, closeKind); err != nil {
 			return nil, err
 		} else if skp {
@@ -1592,9 +1596,6 @@ func reverse(parser *Parser, openKind lexer.TokenKind, parseFn parseFn, closeKin
 			return nodes, err
 		}
 		nodes = append(nodes, node)
-	}
-	if zinteger && len(nodes) == 0 {
-		return nodes, unexpectedEmpty(parser, token.Start, openKind, closeKind)
 	}
 	return nodes, nil
 }
